@@ -5,6 +5,7 @@
 -/
 import SqlDt.Lemmas.Div
 import SqlDt.Lemmas.Float
+import SqlDt.Lemmas.FloatUse
 namespace SqlDt.C14
 open SqlDt Gen
 
@@ -200,6 +201,16 @@ theorem rounding_half_ulp (num den m : Nat) (e : Int) (hn : 0 < num) (hd : 0 < d
     2 * ((m * F64.pow2 e.toNat * den : Nat) - (num * F64.pow2 (-e).toNat : Nat) : Int).natAbs
       ≤ F64.pow2 e.toNat * den :=
   Lemmas.F64.roundPos_spec num den m e hn hd h
+
+/-- Relative error of each correctly rounded operation in the normal range: `|computed − exact| ≤ u/(1+u)·exact` with
+    `u = 2^-53`, without division: `(2^53 + 1)·|m·P·den − num·Q| ≤ num·Q`. `mul_f64`/`div_f64` perform two such operations
+    (conversion of the interval to a double, then the product or quotient), which compose to
+    `(1 + u/(1+u))² − 1 < 2u = 2^-52`. -/
+theorem rounding_relative_error (num den m : Nat) (e : Int) (hn : 0 < num) (hd : 0 < den)
+    (h : F64.roundPos num den = some (m, e)) (hnorm : F64.P52 ≤ m) (he : F64.EMIN < e) :
+    9007199254740993 * ((m * F64.pow2 e.toNat * den : Nat) - (num * F64.pow2 (-e).toNat : Nat) : Int).natAbs
+      ≤ num * F64.pow2 (-e).toNat :=
+  Lemmas.F64.roundPos_rel num den m e hn hd h hnorm he
 
 example : IntervalDT.mulF64 10 (F64.ofInt 3) = .ok 30 ∧ IntervalDT.divF64 10 (F64.ofInt 4) = .ok 2 ∧
     IntervalDT.divF64 (-10) (F64.ofInt 4) = .ok (-2) ∧ IntervalDT.divF64 10 (F64.zero true) = .error .DivideByZero ∧
